@@ -28,6 +28,7 @@ type Pkg struct {
 }
 
 type FuncDeclInfo struct {
+	litParams bool // bind the parameters of the function literal being inlined instead of the declaration's
 	key  string
 	decl *ast.FuncDecl
 	obj  *types.Func
@@ -138,6 +139,56 @@ func loadRepo(dir string) (*Verifier, error) {
 		}
 	}
 	v.registerIfaceColumns()
+	d := newDecls()
+	// function values called by name anywhere: register their trace columns globally
+	for _, fdi := range v.decls {
+		info := fdi.pkg.info
+		ast.Inspect(fdi.decl, func(n ast.Node) bool {
+			call, ok := n.(*ast.CallExpr)
+			if !ok {
+				return true
+			}
+			if id, ok := ast.Unparen(call.Fun).(*ast.Ident); ok {
+				if o, ok := info.Uses[id].(*types.Var); ok {
+					if sig, ok := o.Type().Underlying().(*types.Signature); ok {
+						func() {
+							defer func() { recover() }()
+							for j := 0; j < sig.Params().Len(); j++ {
+								col := fmt.Sprintf("arg_%s_%d", o.Name(), j)
+								if _, dup := v.colTypes[col]; !dup {
+									v.colSorts[col] = d.sortOf(sig.Params().At(j).Type())
+									v.colTypes[col] = sig.Params().At(j).Type()
+								}
+							}
+							for j := 0; j < sig.Results().Len(); j++ {
+								col := fmt.Sprintf("ret_%s_%d", o.Name(), j)
+								if _, dup := v.colTypes[col]; !dup {
+									v.colSorts[col] = d.sortOf(sig.Results().At(j).Type())
+									v.colTypes[col] = sig.Results().At(j).Type()
+								}
+							}
+						}()
+					}
+				}
+			}
+			return true
+		})
+	}
+	for key, sp := range v.contracts.Funcs {
+		if !sp.Traced || v.decls[key] == nil {
+			continue
+		}
+		name := key[strings.LastIndex(key, ".")+1:]
+		sig := v.decls[key].obj.Type().(*types.Signature)
+		func() {
+			defer func() { recover() }()
+			for j := 0; j < sig.Params().Len(); j++ {
+				col := fmt.Sprintf("arg_%s_%d", name, j)
+				v.colSorts[col] = d.sortOf(sig.Params().At(j).Type())
+				v.colTypes[col] = sig.Params().At(j).Type()
+			}
+		}()
+	}
 	return v, nil
 }
 
@@ -158,6 +209,20 @@ func (v *Verifier) funcKey(fn *types.Func) string {
 		}
 	}
 	return pkg + fn.Name()
+}
+
+// lookupType finds a named type of an imported package.
+func (v *Verifier) lookupType(path, name string) types.Type {
+	for _, pk := range v.pkgs {
+		for _, imp := range pk.types.Imports() {
+			if imp.Path() == path {
+				if o := imp.Scope().Lookup(name); o != nil {
+					return o.Type()
+				}
+			}
+		}
+	}
+	return nil
 }
 
 func (v *Verifier) importedPkg(from *Pkg, name string) *types.Package {
@@ -217,14 +282,29 @@ func (v *Verifier) registerIfaceColumns() {
 				// function-typed struct fields are abstract callees too (ValidReplayer.Now, Client.OnRetry, ...)
 				if st, ok := tn.Type().Underlying().(*types.Struct); ok {
 					for i := 0; i < st.NumFields(); i++ {
-						if sig, ok := st.Field(i).Type().Underlying().(*types.Signature); ok {
+						ft := st.Field(i).Type()
+						if sig, ok := ft.Underlying().(*types.Signature); ok {
 							reg(st.Field(i).Name(), sig)
+						}
+						// function-typed fields of library structs held by our structs (http.Request.GetBody, ...)
+						if p, ok := ft.(*types.Pointer); ok {
+							ft = p.Elem()
+						}
+						if inner, ok := ft.Underlying().(*types.Struct); ok {
+							for j := 0; j < inner.NumFields(); j++ {
+								if sig, ok := inner.Field(j).Type().Underlying().(*types.Signature); ok {
+									reg(inner.Field(j).Name(), sig)
+								}
+							}
 						}
 					}
 				}
 			}
 		}
 	}
+	v.colSorts["arg_Do_0"], v.colSorts["ret_Do_0"], v.colSorts["ret_Do_1"] = SRef, SRef, SRef
+	v.colSorts["arg_TimerReset_0"], v.colSorts["ret_TimerReset_0"], v.colSorts["ret_TimerStop_0"] = SInt, SBool, SBool
+	v.colTypes["arg_TimerReset_0"], v.colTypes["ret_TimerReset_0"], v.colTypes["ret_TimerStop_0"] = types.Typ[types.Int64], types.Typ[types.Bool], types.Typ[types.Bool]
 	v.colSorts["arg_httpError_0"], v.colSorts["arg_httpError_1"] = SStr, SInt
 	v.colTypes["arg_httpError_0"], v.colTypes["arg_httpError_1"] = types.Typ[types.String], types.Typ[types.Int]
 	v.colSorts["arg_Write_0"], v.colSorts["ret_Write_0"], v.colSorts["ret_Write_1"] = SStr, SInt, SRef
@@ -237,8 +317,17 @@ func (v *Verifier) traceColSort(fx *Fx, col string) (string, types.Type) {
 	switch col {
 	case "recv":
 		return SRef, nil
-	case "meth", "iter", "callat", "acc":
+	case "do_hasid":
+		return SBool, types.Typ[types.Bool]
+	case "do_id":
+		return SStr, types.Typ[types.String]
+	case "do_body":
+		return SRef, nil
+	case "meth", "iter", "callat", "acc", "rloop", "do_idlen":
 		return SInt, types.Typ[types.Int]
+	}
+	if t := v.colTypes[col]; t != nil {
+		return fx.d.sortOf(t), t // (declares the sort in this function's declarations when needed)
 	}
 	if s, ok := v.colSorts[col]; ok {
 		return s, v.colTypes[col]
@@ -296,6 +385,9 @@ func (v *Verifier) mayTouchTrace(key string) bool {
 	v.traceMemo[key] = 3
 	fd := v.decls[key]
 	res := false
+	if sp := v.contracts.Funcs[key]; sp != nil && sp.Traced {
+		res = true
+	}
 	if fd != nil && fd.decl.Body != nil {
 		info := fd.pkg.info
 		ast.Inspect(fd.decl.Body, func(n ast.Node) bool {
@@ -414,6 +506,7 @@ func (v *Verifier) verifyFunc(key string) (rep *FuncReport) {
 		heapSort: map[string]string{}, dropped: map[string]bool{}, assumed: map[string]bool{}, oblSeen: map[string]int{}}
 	fx.loopOrd = v.loopOrdinals(fd.decl)
 	fx.litOrd = v.litCache[fd.decl]
+	fx.rootSpec = spec
 	rep.Decls = fx.d
 	defer func() {
 		if r := recover(); r != nil {
@@ -543,6 +636,33 @@ func (v *Verifier) verifyFunc(key string) (rep *FuncReport) {
 			}
 		}
 	}
+	// function values called by name anywhere in the declaration: register their trace columns
+	ast.Inspect(fd.decl, func(n ast.Node) bool {
+		call, ok := n.(*ast.CallExpr)
+		if !ok {
+			return true
+		}
+		if id, ok := ast.Unparen(call.Fun).(*ast.Ident); ok {
+			if o, ok := info.Uses[id].(*types.Var); ok {
+				if sig, ok := o.Type().Underlying().(*types.Signature); ok {
+					func() {
+						defer func() { recover() }()
+						for j := 0; j < sig.Params().Len(); j++ {
+							col := fmt.Sprintf("arg_%s_%d", o.Name(), j)
+							v.colSorts[col] = fx.d.sortOf(sig.Params().At(j).Type())
+							v.colTypes[col] = sig.Params().At(j).Type()
+						}
+						for j := 0; j < sig.Results().Len(); j++ {
+							col := fmt.Sprintf("ret_%s_%d", o.Name(), j)
+							v.colSorts[col] = fx.d.sortOf(sig.Results().At(j).Type())
+							v.colTypes[col] = sig.Results().At(j).Type()
+						}
+					}()
+				}
+			}
+		}
+		return true
+	})
 	// results
 	if ftype.Results != nil {
 		for _, f := range ftype.Results.List {
@@ -703,7 +823,7 @@ func (fx *Fx) frameObligations(fs, entry *State, spec *FuncSpec, pkg *Pkg) {
 		if final == want {
 			continue
 		}
-		if strings.HasPrefix(k, "local_") {
+		if strings.HasPrefix(k, "local_") || strings.HasPrefix(k, "ghost_") {
 			continue
 		}
 		// cells allocated during the call are not part of the caller-visible frame
